@@ -841,6 +841,36 @@ mod api {
                 }
             }
         }
+        // re-teaching a word leaves the learned choices of other texts alone, also of texts that begin with it (din / diner, am / amar)
+        {
+            let cfgv = phon_cfg(json!({}));
+            for (w, longer) in [("din", "diner"), ("am", "amar"), ("kor", "kora")] {
+                o.cases += 1;
+                crate::verif_driver::reset_user_files();
+                let mut s = Sess::new(cfgv.clone());
+                let pick = |s: &mut Sess, t: &str, skip: usize| -> Option<String> {
+                    let sg = s.typ(t).unwrap();
+                    if sg.is_lonely() || sg.len() < 2 + skip { s.finish(); return None; }
+                    let i = (sg.previously_selected_index() + 1 + skip) % sg.len();
+                    let text = sg.get_suggestions()[i].clone();
+                    s.commit(i);
+                    Some(text)
+                };
+                if pick(&mut s, w, 0).is_none() { continue; }
+                let learned_longer = match pick(&mut s, longer, 0) { Some(t) => t, None => continue };
+                if pick(&mut s, w, 0).is_none() { continue; }       // re-teach w with another candidate
+                let a = s.typ(longer).unwrap(); s.finish();
+                if a.get_suggestions().get(a.previously_selected_index()) != Some(&learned_longer) {
+                    o.fail(json!({"clause": "C09 a learned choice stays preselected when another word (a prefix of it) is re-taught", "history": s.history(), "observed": show(&a), "expected": learned_longer}));
+                }
+                let mut fresh = Sess::new(cfgv.clone());
+                let b = fresh.typ(longer).unwrap(); fresh.finish();
+                if b.get_suggestions().get(b.previously_selected_index()) != Some(&learned_longer) {
+                    o.fail(json!({"clause": "C09 a learned choice is preselected after a restart although a prefix of the word was re-taught meanwhile", "history": {"first_context": s.history(), "new_context": fresh.history()}, "observed": show(&b), "expected": learned_longer}));
+                }
+                o.nontrivial += 1;
+            }
+        }
         // re-teaching with a SHORTER text: the file written for the longer choice is replaced as a whole (no stale tail), the store
         // on disk is at all times a JSON object of strings equal to what was learned, and a new context recalls the last choice
         {
@@ -922,6 +952,38 @@ mod api {
                     o.nontrivial += 1;
                 }
             }
+        }
+        // a failed save loses at most that one learned choice: the user-data directory is unusable for one commit (a plain file in
+        // its place), usable again for the next one; a new context must recall the second choice
+        {
+            o.cases += 1;
+            crate::verif_driver::reset_user_files();
+            let dir = crate::verif_driver::user_dir();
+            let r = std::panic::catch_unwind(std::panic::AssertUnwindSafe(|| {
+                let mut s = Sess::new(cfgv.clone());
+                let _ = std::fs::remove_dir_all(&dir);
+                std::fs::write(&dir, b"not a directory").unwrap();
+                let sg = s.typ("sesh").unwrap(); if !sg.is_lonely() && sg.len() > 1 { s.commit((sg.previously_selected_index() + 1) % sg.len()); } else { s.finish(); }
+                s.events.push(json!({"note": "the user-data directory was a plain file during this commit; it is a directory again from here on"}));
+                let _ = std::fs::remove_file(&dir);
+                std::fs::create_dir_all(&dir).unwrap();
+                let sg = s.typ("kotha").unwrap();
+                let want = if !sg.is_lonely() && sg.len() > 1 { let i = (sg.previously_selected_index() + 1) % sg.len(); let t = sg.get_suggestions()[i].clone(); s.commit(i); Some(t) } else { s.finish(); None };
+                (s.history(), want)
+            }));
+            match r {
+                Err(_) => { let _ = std::fs::remove_file(&dir); o.fail(json!({"clause": "C10 an unusable user-data directory never stops the keyboard (panic)", "history": {"config": cfgv, "events": "commit with the user-data directory replaced by a plain file, then restored"}})); }
+                Ok((hist, Some(want))) => {
+                    let mut fresh = Sess::new(cfgv.clone());
+                    let a = fresh.typ("kotha").unwrap(); fresh.finish();
+                    if a.get_suggestions().get(a.previously_selected_index()) != Some(&want) {
+                        o.fail(json!({"clause": "C10 a failed save loses at most that one learned choice (a later choice, saved when the directory is usable again, is recalled by a new context)", "history": hist, "observed": show(&a), "expected": want}));
+                    }
+                    o.nontrivial += 1;
+                }
+                Ok(_) => {}
+            }
+            crate::verif_driver::reset_user_files();
         }
         // entries with empty strings arriving through a reload of the configuration
         for doc in ["{\"zzq\":\"\",\"zzx\":\"ami\"}", "{\"zzq\":\"`\"}", "{\"\":\"\"}"] {
@@ -1148,6 +1210,28 @@ mod api {
                 o.nontrivial += 1;
             }}
         }
+        // phonetic -> fixed layout -> (user auto-correct file edited meanwhile) -> phonetic again: as a new context
+        for (name, before, after) in [("add", None, Some("{\"zzq\":\"kotha\"}")), ("change", Some("{\"zzq\":\"kotha\"}"), Some("{\"zzq\":\"amar\"}")), ("remove file", Some("{\"zzq\":\"kotha\"}"), None)] {
+            o.cases += 1;
+            crate::verif_driver::reset_user_files();
+            let path = crate::verif_driver::user_file_path("autocorrect.json");
+            if let Some(b) = before { std::fs::write(&path, b).unwrap(); crate::verif_driver::set_mtime(&path, 1_000_000); }
+            let mut s = Sess::new(cfgv.clone());
+            for w in ["zzq", "zzqgulo"] { let _ = s.typ(w); s.finish(); }
+            let fx = fixed_cfg(json!({"fixed_suggestion": true}));
+            s.update(&fx);
+            let _ = s.typ("tp"); s.finish();
+            match after { Some(a) => { std::fs::write(&path, a).unwrap(); crate::verif_driver::set_mtime(&path, 2_000_000); } None => { let _ = std::fs::remove_file(&path); } }
+            s.events.push(json!({"note": format!("user auto-correct edit while the fixed layout is active: {}", name)}));
+            s.update(&cfgv);
+            let mut fresh = Sess::new(cfgv.clone());
+            for w in ["zzq", "zzqgulo", "kotha"] {
+                let x = s.typ(w).unwrap(); s.finish();
+                let y = fresh.typ(w).unwrap(); fresh.finish();
+                if show(&x) != show(&y) { o.fail(json!({"clause": "C11 a changed layout switches the method; back on the phonetic layout every event behaves as in a new context (user auto-correct file edited while the fixed layout was active)", "edit": name, "probe": w, "history": s.history(), "observed": show(&x), "expected": show(&y)})); }
+            }
+            o.nontrivial += 1;
+        }
         // single-option flips on a live context, both directions, in both methods: the probe words are typed BEFORE and AFTER the
         // switch ("including words that were already typed before"), and compared with a context newly created under the new options
         {
@@ -1157,12 +1241,12 @@ mod api {
                 "fixed_numpad": false, "fixed_kar_order": false, "ansi": false, "smart_quote": false });
             let opts = ["phonetic_suggestion", "include_english", "fixed_suggestion", "fixed_vowel", "fixed_chandra", "fixed_kar", "fixed_old_reph", "fixed_numpad", "fixed_kar_order", "ansi", "smart_quote"];
             let bases: Vec<(&str, Value, Vec<&str>)> = vec![
-                ("phonetic", full("avro_phonetic".into()), vec!["amar", "cool", "\"kotha\"", "academy", ";)"]),
+                ("phonetic", full("avro_phonetic".into()), vec!["amar", "cool", "\"kotha\"", "academy", ";)", "a", "o"]),
                 ("probhat", full(crate::verif_driver::probhat_layout()), vec!["bab", "tp", "hasi", "\"tp\"", "kuk", ";)"]),
             ];
             for (bn, base, probes) in &bases { for opt in opts { for first in [false, true] {
                 o.cases += 1;
-                let tag = match opt { "ansi" => "C11 C16 C18", "smart_quote" => "C11 C17", "include_english" => "C11 C16", _ => "C11" };
+                let tag = match opt { "ansi" => "C05 C11 C16 C18", "smart_quote" => "C05 C11 C17", "include_english" => "C05 C11 C16", _ => "C05 C11" };
                 let mut a = base.clone(); a[opt] = json!(first);
                 let mut b = base.clone(); b[opt] = json!(!first);
                 crate::verif_driver::reset_user_files();
@@ -1170,7 +1254,8 @@ mod api {
                 for w in probes { let _ = s.typ(w); s.finish(); }
                 s.update(&b);
                 let mut fresh = Sess::new(b.clone());
-                for w in probes {
+                // in reverse: the first text typed after the switch is the last one typed before it
+                for w in probes.iter().rev() {
                     let r = std::panic::catch_unwind(std::panic::AssertUnwindSafe(|| { let x = s.typ(w).unwrap(); s.finish(); x }));
                     let y = fresh.typ(w).unwrap(); fresh.finish();
                     match r {
@@ -1469,6 +1554,24 @@ mod api {
             t.into_values().flatten().collect()
         };
         let data = crate::data::Data::new(&make_config(&cfgv));
+        // a base that already ends in the letters of the suffix (khata + ta, pata + ta, mot + o ...): the base of the split is
+        // still the word minus ONE suffix
+        for (base, k) in [("khata", "ta"), ("pata", "ta"), ("mota", "ta"), ("ta", "ta"), ("bati", "ti"), ("koro", "o"), ("jete", "te")] {
+            if !suffixes.contains_key(k) { continue; }
+            o.cases += 1;
+            let ac = data.search_corrected(base).map(|c| parser.convert(c));
+            let mut s = Sess::new(cfgv.clone());
+            let direct = { let sg = s.typ(base).unwrap(); s.finish(); texts(&sg) };
+            let word = format!("{}{}", base, k);
+            let sg = s.typ(&word).unwrap(); s.finish();
+            let list = texts(&sg);
+            for d in &direct {
+                if !dict.contains(d) && Some(d) != ac.as_ref() { continue; }
+                let j = join(d, &suffixes[k]);
+                if !list.contains(&j) { o.fail(json!({"clause": "C08 every direct candidate of the base is offered joined with the suffix (base ending in the letters of the suffix)", "history": s.history(), "word": word, "observed": list, "expected": j})); break; }
+            }
+            o.nontrivial += 1;
+        }
         for base in ["bisoy", "kotha", "hotat", "ebong", "academy"] {
             let ac = data.search_corrected(base).map(|c| parser.convert(c));
             let mut s = Sess::new(cfgv.clone());
